@@ -5,9 +5,10 @@ one `Net.poll`.  Helper lemmas.
 -/
 import ProfiVerif.Lemmas.TimedRingBus
 import ProfiVerif.Lemmas.TimedRingStation
+import ProfiVerif.Lemmas.RingPass
 
 namespace PV
-open StationGap
+open StationGap TokenRing
 
 /-! ## Constants -/
 
@@ -90,10 +91,34 @@ theorem byteEnd_cfg (b : Bus) (c : Cfg) (h : b.rate = c.rate) (k : Nat) : b.byte
 
 /-! ## Side conditions that never change -/
 
+/-- The ring view of station `x` in a stable ring with member list `M`: valid LAS equal to `M`, NS / PS
+derived from it (as `ViewOk` of `Lemmas/AbstractRing.lean`). -/
+structure RingView (M : List Nat) (x : Nat) (r : TokenRing) : Prop where
+  ring : IsRing M
+  mem : x ∈ M
+  ts : r.ts = x
+  valid : r.las = .valid
+  las : TokenRing.LasIs r M
+  nbr : TokenRing.Nbr r
+
+/-- The own pass to the cyclic successor leaves the ring view as it is. -/
+theorem RingView.witness {M : List Nat} {x : Nat} {r : TokenRing} (v : RingView M x r) :
+    RingView M x (r.witness x (cycSucc x M)) := by
+  have hn := cycSucc_mem x M v.mem
+  rw [TokenRing.witness_valid r x _ v.valid (v.ring.bound x v.mem) (v.ring.bound _ hn)]
+  exact ⟨v.ring, v.mem, (TokenRing.updateLas_las r _ _).2.trans v.ts, (TokenRing.updateLas_las r _ _).1.trans v.valid,
+    TokenRing.updateLas_succ_stable r M x v.las v.mem, TokenRing.updateLas_nbr r _ _⟩
+
+theorem RingView.ns {M : List Nat} {x : Nat} {r : TokenRing} (v : RingView M x r) :
+    r.ns = cycSucc x M ∧ r.ps = cycPred x M := by
+  have := TokenRing.nbr_lasIs r M v.nbr v.las v.ring.bound
+  rw [v.ts] at this
+  exact this
+
 /-- Per-station side conditions of the stable two-station ring: online, alive, no applications, the
-station invariant, common bus parameters, own address `a`, the other station `o` registered as successor
-and predecessor with a ring view that the own pass `a → o` leaves unchanged, and a token-lost time-out
-longer than the longest silence of normal operation. -/
+station invariant, common bus parameters, own address `a`, a valid ring view over a member list `M` in
+which the other station `o` is both successor and predecessor of `a`, and a token-lost time-out longer
+than the longest silence of normal operation. -/
 structure StOk (cfg : Cfg) (st : NetStation) (a o : Nat) : Prop where
   online : st.online = true
   alive : st.dead = false
@@ -103,13 +128,23 @@ structure StOk (cfg : Cfg) (st : NetStation) (a o : Nat) : Prop where
   rate : st.s.p.rate = cfg.rate
   slotBits : st.s.p.slotBits = cfg.slotBits
   addr : st.s.p.address = a
-  ns : st.s.ring.ns = o
-  ps : st.s.ring.ps = o
-  fix : st.s.ring.witness a o = st.s.ring
+  view : ∃ M, RingView M a st.s.ring ∧ cycSucc a M = o ∧ cycPred a M = o
   tto : cfg.slot + 2 * cfg.P + cfg.ce 0 + 2 ≤ st.s.p.tokenLostTimeout
   ne : a ≠ o
   lta : a < 126
   lto : o < 126
+
+theorem StOk.ns {cfg : Cfg} {st : NetStation} {a o : Nat} (h : StOk cfg st a o) : st.s.ring.ns = o := by
+  obtain ⟨M, v, h1, -⟩ := h.view; rw [v.ns.1, h1]
+theorem StOk.ps {cfg : Cfg} {st : NetStation} {a o : Nat} (h : StOk cfg st a o) : st.s.ring.ps = o := by
+  obtain ⟨M, v, -, h2⟩ := h.view; rw [v.ns.2, h2]
+/-- After the own pass NS is still the other station. -/
+theorem StOk.ns_witness {cfg : Cfg} {st : NetStation} {a o : Nat} (h : StOk cfg st a o) :
+    (st.s.ring.witness a o).ns = o := by
+  obtain ⟨M, v, h1, -⟩ := h.view
+  have := v.witness
+  rw [h1] at this
+  rw [this.ns.1, h1]
 
 theorem StOk.bits {cfg : Cfg} {st : NetStation} {a o : Nat} (h : StOk cfg st a o) (k : Nat) :
     st.s.p.bits k = bitsToTime cfg.rate k := by unfold Params.bits; rw [h.rate]
@@ -117,9 +152,11 @@ theorem StOk.b33 {cfg : Cfg} {st : NetStation} {a o : Nat} (h : StOk cfg st a o)
 theorem StOk.slot {cfg : Cfg} {st : NetStation} {a o : Nat} (h : StOk cfg st a o) : st.s.p.slotTime = cfg.slot := by
   unfold Params.slotTime Cfg.slot; rw [h.bits, h.slotBits]
 
-/-- The side conditions survive a poll that keeps parameters, ring view and connectivity. -/
+/-- The side conditions survive a poll that keeps parameters and connectivity and leaves the ring view
+alone or records the own pass. -/
 theorem StOk.step {cfg : Cfg} {st : NetStation} {a o : Nat} (h : StOk cfg st a o) (now : Int) (phy : Bool) (rx : Bytes)
-    (c : Ctx) (hp : st.s.poll [] now phy rx = .ok c) (h1 : c.s.p = st.s.p) (h2 : c.s.ring = st.s.ring)
+    (c : Ctx) (hp : st.s.poll [] now phy rx = .ok c) (h1 : c.s.p = st.s.p)
+    (h2 : c.s.ring = st.s.ring ∨ c.s.ring = st.s.ring.witness a o)
     (h3 : c.s.online = true) :
     StOk cfg { st with s := c.s, apps := c.apps, rx := c.rx } a o := by
   obtain ⟨c', hc', hinv', hlen⟩ := pollInner_good { s := st.s, apps := [], rx := rx } now phy h.inv rfl
@@ -129,9 +166,17 @@ theorem StOk.step {cfg : Cfg} {st : NetStation} {a o : Nat} (h : StOk cfg st a o
   subst this
   have happs : c'.apps = [] := List.eq_nil_of_length_eq_zero hlen
   rw [happs] at hinv'
+  have hview : ∃ M, RingView M a c'.s.ring ∧ cycSucc a M = o ∧ cycPred a M = o := by
+    obtain ⟨M, v, e1, e2⟩ := h.view
+    rcases h2 with h2 | h2
+    · exact ⟨M, by rw [h2]; exact v, e1, e2⟩
+    · refine ⟨M, ?_, e1, e2⟩
+      rw [h2]
+      have := v.witness
+      rw [e1] at this
+      exact this
   exact ⟨h.online, h.alive, happs, hinv', h3, by simp only [h1]; exact h.rate, by simp only [h1]; exact h.slotBits,
-    by simp only [h1]; exact h.addr, by simp only [h2]; exact h.ns, by simp only [h2]; exact h.ps,
-    by simp only [h2]; exact h.fix, by simp only [h1]; exact h.tto, h.ne, h.lta, h.lto⟩
+    by simp only [h1]; exact h.addr, hview, by simp only [h1]; exact h.tto, h.ne, h.lta, h.lto⟩
 
 /-- Bus side conditions seen from both stations: fault-free, log = `old ++ [tr]` with everything in
 `old` over before `tr` started and delivered to (or sent by) either station. -/
@@ -306,7 +351,8 @@ theorem rinv_quiet_x {cfg : Cfg} {n : Net} {v : View} (h : RInv cfg n v) (now : 
     (hs : n.bus.seen.getD v.x 0 ≤ now) (inc : Bytes) (c : Ctx)
     (hd : n.bus.deliver v.x now = ({ n.bus with seen := n.bus.seen.set v.x now }, inc))
     (hp : v.sx.s.poll [] now (n.bus.transmitting v.x now) (v.sx.rx ++ inc) = .ok c)
-    (htx : c.tx = none) (h1 : c.s.p = v.sx.s.p) (h2 : c.s.ring = v.sx.s.ring) (h3 : c.s.online = true)
+    (htx : c.tx = none) (h1 : c.s.p = v.sx.s.p)
+    (h2 : c.s.ring = v.sx.s.ring ∨ c.s.ring = v.sx.s.ring.witness v.ax v.ay) (h3 : c.s.online = true)
     (h4 : c.s.pendingBytes = 0) (h5 : c.rx = [])
     (hph : PhaseOk cfg (v.setX c now) now (n.bus.seen.getD (oth v.x) 0)) :
     ∃ n', n.poll v.x now = (n', inc, some (.ok c)) ∧ RInv cfg n' (v.setX c now) := by
@@ -336,7 +382,8 @@ theorem rinv_quiet_y {cfg : Cfg} {n : Net} {v : View} (h : RInv cfg n v) (now : 
     (hs : n.bus.seen.getD (oth v.x) 0 ≤ now) (inc : Bytes) (c : Ctx) (idle' : Bool) (ly' : Int)
     (hd : n.bus.deliver (oth v.x) now = ({ n.bus with seen := n.bus.seen.set (oth v.x) now }, inc))
     (hp : v.sy.s.poll [] now (n.bus.transmitting (oth v.x) now) (v.sy.rx ++ inc) = .ok c)
-    (htx : c.tx = none) (h1 : c.s.p = v.sy.s.p) (h2 : c.s.ring = v.sy.s.ring) (h3 : c.s.online = true)
+    (htx : c.tx = none) (h1 : c.s.p = v.sy.s.p)
+    (h2 : c.s.ring = v.sy.s.ring ∨ c.s.ring = v.sy.s.ring.witness v.ay v.ax) (h3 : c.s.online = true)
     (hph : PhaseOk cfg (v.setY c idle' ly' now) (n.bus.seen.getD v.x 0) now) :
     ∃ n', n.poll (oth v.x) now = (n', inc, some (.ok c)) ∧ RInv cfg n' (v.setY c idle' ly' now) := by
   unfold View.setY upSt at hph ⊢
@@ -370,7 +417,8 @@ theorem rinv_send_x {cfg : Cfg} {n : Net} {v : View} (h : RInv cfg n v) (hok : c
     (hs : n.bus.seen.getD v.x 0 ≤ now) (c : Ctx) (b : Bytes) (ph' : Phase)
     (hd : n.bus.deliver v.x now = ({ n.bus with seen := n.bus.seen.set v.x now }, []))
     (hp : v.sx.s.poll [] now (n.bus.transmitting v.x now) [] = .ok c)
-    (htx : c.tx = some b) (h1 : c.s.p = v.sx.s.p) (h2 : c.s.ring = v.sx.s.ring) (h3 : c.s.online = true)
+    (htx : c.tx = some b) (h1 : c.s.p = v.sx.s.p)
+    (h2 : c.s.ring = v.sx.s.ring ∨ c.s.ring = v.sx.s.ring.witness v.ax v.ay) (h3 : c.s.online = true)
     (h4 : c.s.pendingBytes = 0) (h5 : c.rx = [])
     (hend : n.bus.txEnd v.tr ≤ now)
     (hys : v.tr.sender = oth v.x ∨ n.bus.txEnd v.tr ≤ n.bus.seen.getD (oth v.x) 0)
@@ -442,7 +490,8 @@ theorem rinv_swap_y {cfg : Cfg} {n : Net} {v : View} (h : RInv cfg n v) (now : I
     (hs : n.bus.seen.getD (oth v.x) 0 ≤ now) (inc : Bytes) (c : Ctx) (ly' : Int)
     (hd : n.bus.deliver (oth v.x) now = ({ n.bus with seen := n.bus.seen.set (oth v.x) now }, inc))
     (hp : v.sy.s.poll [] now (n.bus.transmitting (oth v.x) now) (v.sy.rx ++ inc) = .ok c)
-    (htx : c.tx = none) (h1 : c.s.p = v.sy.s.p) (h2 : c.s.ring = v.sy.s.ring) (h3 : c.s.online = true)
+    (htx : c.tx = none) (h1 : c.s.p = v.sy.s.p)
+    (h2 : c.s.ring = v.sy.s.ring ∨ c.s.ring = v.sy.s.ring.witness v.ay v.ax) (h3 : c.s.online = true)
     (h4 : c.s.pendingBytes = 0) (h5 : c.rx = [])
     (hph : PhaseOk cfg (v.swap c ly' now) now (n.bus.seen.getD v.x 0)) :
     ∃ n', n.poll (oth v.x) now = (n', inc, some (.ok c)) ∧ RInv cfg n' (v.swap c ly' now) := by
